@@ -443,13 +443,13 @@ func TestStateReplay(t *testing.T) {
 		cfgs := in.Configs
 		if len(cfgs) == 0 {
 			// both backends always see the same (split, versions) pairs so that they are compared like for like
-			for k := 0; k < 2; k++ {
+			npairs := 2
+			if vh.Thorough() {
+				npairs = 3
+			}
+			for k := 0; k < npairs; k++ {
 				sp := splits[(bi+k)%3]
 				ve := versions[(bi/3+k+int(vh.Seed()))%3]
-				if vh.Thorough() {
-					k2 := k
-					_ = k2
-				}
 				for _, ns := range []bool{false, true} {
 					cfgs = append(cfgs, stConfig{NewState: ns, Versions: ve, Split: sp, Seed: vh.Seed()*7919 + int64(bi)})
 				}
